@@ -10,10 +10,12 @@ LEVEL_TEXT = ("Proved over ℝ: normalisation ranges [0,2π) / (−π,π] and co
               "a pump converted from any beam points along z; forward Snell sin θe = n·sin θi and θi ≤ θe for n ≥ 1; "
               "frequency/wavelength, Celsius/Kelvin and FWHM/waist conversions are mutually inverse, FWHM = 2√(2 ln 2)·σ, waist "
               "position = −L/(2n).")
-LEVEL_NOTE = ("The internal-from-external Snell search is a 100-iteration Nelder–Mead run: its result is an INPUT of the model's "
-              "setThetaExternal op (taken from the real Beam::calc_internal_theta_from_external), the 1e-5° read-back is checked on the "
-              "real code for all 11 crystals × orientations × polarisations × azimuths × θe ∈ [0°,80°] (residual: convergence of the "
-              "simplex). Principal indices are inputs of snell_ext / waist_pos (layered correspondence). Model fidelity is checked, not proved.")
+LEVEL_NOTE = ("The internal-from-external Snell search (cost closure |sin θe − n(θ)·sin θ| + bounded 1-D Nelder–Mead, 100 iterations) is "
+              "modelled on top of the NM1D model and tied by the snell_int op (bit-exact so far); in the setter state machine the search "
+              "result is an INPUT of the setThetaExternal op (taken from the real Beam::calc_internal_theta_from_external). That the search "
+              "converges (the 1e-5° read-back) is not a theorem: it is checked on the real code for all 11 crystals × orientations × "
+              "polarisations × azimuths × θe ∈ [0°,80°]; readback_of_residual reduces it to the optimiser's residual. Principal indices are "
+              "inputs of snell_ext / snell_int / waist_pos (layered correspondence). Model fidelity is checked, not proved.")
 OPS = {"fmod", "norm_angle", "norm_angle_signed", "dir_from_polar", "beam_seq", "snell_ext", "snell_int", "waist_pos", "wavevector",
        "c2k", "k2c", "wl2freq", "freq2wl", "vac_wl2freq", "freq2vac_wl", "freq2wn", "wn2freq", "fwhm2sigma", "fwhm2waist", "waist2fwhm"}
 TOL = {"fmod": ("exact",), "norm_angle": ("exact",), "norm_angle_signed": ("exact",), "dir_from_polar": ("ulp", 4),
